@@ -72,8 +72,11 @@ mod verif_kani_token {
     }
 
     /// the data-structure invariant a parsed token must satisfy (DESIGN.md C09/C10); mirrors token_wf of the Verus unit
-    fn token_wf(t: &HandRangeToken) -> bool {
-        let p_ok = t.probability >= 0.0 && t.probability <= 1.0;
+    fn token_wf(t: &HandRangeToken) -> bool { kind_wf(t) && weight_unit(t) }
+    /// C10's half: the weight lies in the unit interval
+    fn weight_unit(t: &HandRangeToken) -> bool { t.probability >= 0.0 && t.probability <= 1.0 }
+    /// the half C09 needs (expansion has no panic path): ordered spans, two different cards
+    fn kind_wf(t: &HandRangeToken) -> bool {
         let k_ok = match t.kind {
             HandRangeTokenKind::BottomClosedRankPairRange(rp) => match rp {
                 RankPair::Pocket(_) => true,
@@ -92,7 +95,7 @@ mod verif_kani_token {
             },
             HandRangeTokenKind::SingleCardPair(p) => p[0] != p[1],
         };
-        p_ok && k_ok
+        k_ok
     }
 
     // ---- C09 / C10: every ASCII string up to N bytes, and every such string with the two-byte character
@@ -114,7 +117,8 @@ mod verif_kani_token {
         let s = unsafe { std::str::from_utf8_unchecked(&bytes[..len]) };
         kani::cover!(len == N);
         match HandRangeToken::from_str(s) {
-            Ok(t) => { assert!(token_wf(&t)); }
+            // two separate obligations: C09 owns kind_wf, C10 owns both (a failure of weight_unit alone is not a C09 failure)
+            Ok(t) => { assert!(kind_wf(&t)); assert!(weight_unit(&t)); }
             Err(()) => {}
         }
     }
@@ -318,6 +322,91 @@ mod verif_kani_token {
         kani::cover!(a == b);
         let (s, n, w) = with_weight::<4, 8>([RANK_CH[a as usize], SUIT_CH[s1 as usize], RANK_CH[b as usize], SUIT_CH[s2 as usize]], true);
         assert!(HandRangeToken::from_str(unsafe { std::str::from_utf8_unchecked(&s[..n]) }) == Ok(HandRangeToken::new(HandRangeTokenKind::SingleCardPair(CardPair::new(Card::new(rank_of(a), suit_of(s1)), Card::new(rank_of(b), suit_of(s2)))), w)));
+    }
+
+    // ---- C10 / C09 (weight suffix on EVERY shape): for all ranks / suits of each of the seven token shapes and every weight
+    //      text ":D", ":D.D", ":D.DD" (D symbolic ASCII digits; the abstraction classes 0, (0,1], 1, above 1 are all reached),
+    //      Ok(t) ==> token_wf(t): in particular no shape lets a weight above 1 through.  The total_parse_N harnesses reach
+    //      weights above 1 only for bodies of <= N - 4 bytes (":1.5" is 4 bytes, the spans are 5 and 7): these harnesses
+    //      close that gap for well-formed bodies of every shape.
+    fn wf_weighted<const N: usize, const M: usize>(body: [u8; N]) {
+        let mut s = [0u8; M];
+        let mut i = 0;
+        while i < N { s[i] = body[i]; i += 1; }
+        let (d0, d1, d2): (u8, u8, u8) = (kani::any(), kani::any(), kani::any());
+        kani::assume(d0 >= b'0' && d0 <= b'9' && d1 >= b'0' && d1 <= b'9' && d2 >= b'0' && d2 <= b'9');
+        s[N] = b':'; s[N + 1] = d0; s[N + 2] = b'.'; s[N + 3] = d1; s[N + 4] = d2;
+        let form: u8 = kani::any();
+        kani::assume(form < 3);
+        let len = if form == 0 { N + 2 } else if form == 1 { N + 4 } else { N + 5 };
+        kani::cover!(form == 1 && d0 == b'1' && d1 == b'5');
+        match HandRangeToken::from_str(unsafe { std::str::from_utf8_unchecked(&s[..len]) }) {
+            Ok(t) => { assert!(token_wf(&t)); }
+            Err(()) => {}
+        }
+    }
+
+    #[kani::proof]
+    #[kani::unwind(9)]
+    #[kani::stub(parse_probability, stub_parse_probability)]
+    fn tok_wf_weighted_pocket() {
+        let a = any_rank();
+        let ac = RANK_CH[a as usize];
+        wf_weighted::<2, 7>([ac, ac]);
+    }
+
+    #[kani::proof]
+    #[kani::unwind(10)]
+    #[kani::stub(parse_probability, stub_parse_probability)]
+    fn tok_wf_weighted_plus_pocket() {
+        let a = any_rank();
+        let ac = RANK_CH[a as usize];
+        wf_weighted::<3, 8>([ac, ac, b'+']);
+    }
+
+    #[kani::proof]
+    #[kani::unwind(12)]
+    #[kani::stub(parse_probability, stub_parse_probability)]
+    fn tok_wf_weighted_span_pocket() {
+        let (a, b) = (any_rank(), any_rank());
+        let (ac, bc) = (RANK_CH[a as usize], RANK_CH[b as usize]);
+        wf_weighted::<5, 10>([ac, ac, b'-', bc, bc]);
+    }
+
+    #[kani::proof]
+    #[kani::unwind(10)]
+    #[kani::stub(parse_probability, stub_parse_probability)]
+    fn tok_wf_weighted_rank_pair() {
+        let (h, k) = (any_rank(), any_rank());
+        let suited: bool = kani::any();
+        wf_weighted::<3, 8>([RANK_CH[h as usize], RANK_CH[k as usize], if suited { b's' } else { b'o' }]);
+    }
+
+    #[kani::proof]
+    #[kani::unwind(11)]
+    #[kani::stub(parse_probability, stub_parse_probability)]
+    fn tok_wf_weighted_plus_rank_pair() {
+        let (h, k) = (any_rank(), any_rank());
+        let suited: bool = kani::any();
+        wf_weighted::<4, 9>([RANK_CH[h as usize], RANK_CH[k as usize], if suited { b's' } else { b'o' }, b'+']);
+    }
+
+    #[kani::proof]
+    #[kani::unwind(14)]
+    #[kani::stub(parse_probability, stub_parse_probability)]
+    fn tok_wf_weighted_span_rank_pair() {
+        let (h, k, h2, e) = (any_rank(), any_rank(), any_rank(), any_rank());
+        let (so1, so2): (bool, bool) = (kani::any(), kani::any());
+        wf_weighted::<7, 12>([RANK_CH[h as usize], RANK_CH[k as usize], if so1 { b's' } else { b'o' }, b'-',
+                              RANK_CH[h2 as usize], RANK_CH[e as usize], if so2 { b's' } else { b'o' }]);
+    }
+
+    #[kani::proof]
+    #[kani::unwind(11)]
+    #[kani::stub(parse_probability, stub_parse_probability)]
+    fn tok_wf_weighted_card_pair() {
+        let (a, b, s1, s2) = (any_rank(), any_rank(), any_suit(), any_suit());
+        wf_weighted::<4, 9>([RANK_CH[a as usize], SUIT_CH[s1 as usize], RANK_CH[b as usize], SUIT_CH[s2 as usize]]);
     }
 
     // ---- C17 / C06 (text of a token): Display writes exactly the notation that the tok_meaning_* harnesses parse back
